@@ -128,7 +128,7 @@ func (x *Exec) collectEffects(nodes ...ast.Node) loopEffects {
 			case *ast.CallExpr:
 				x.callEffects(s, &eff, unknown)
 			case *ast.FuncLit:
-				return true
+				return false // a literal's body runs when it is called, not where it is written
 			}
 			return true
 		})
